@@ -69,6 +69,10 @@ SheetRows(W, s, depth, children) ==
          \o SheetRows(W, Tail(s), depth, children)
 (* the cell of a linked task: its id, or "id(external)" when it lies outside the WBS; the harness *)
 (* decodes a link cell into a sequence of [id, external] *)
-LinkCell(W, t) == [i \in DOMAIN W.pre[t] |-> [id |-> W.ids[W.pre[t][i]], external |-> FALSE]]
+(* home[t] is the WBS task t belongs to (sheet worlds may spread their top-level subtrees over two WBSs):  *)
+(* a link is external exactly when the two tasks of the row's link have different homes                    *)
+LinkCell(W, t) == [i \in DOMAIN W.pre[t] |-> [id |-> W.ids[W.pre[t][i]], external |-> W.home[W.pre[t][i]] # W.home[t]]]
                   \o [i \in DOMAIN W.ext[t] |-> [id |-> W.ext[t][i], external |-> TRUE]]
+(* the successors cell, as a set (its order is the order in which the links were made) *)
+SuccCell(W, t) == {[id |-> W.ids[s], external |-> W.home[s] # W.home[t]] : s \in {x \in Tr(W) : t \in RanR(W.pre[x])}}
 =============================================================================
